@@ -7,7 +7,7 @@
    correspondence check (flag per run), not a theorem: the model is a pure function. *)
 From Coq Require Import List ZArith QArith Permutation Lia.
 From MM Require Import Base.Num Base.GEComb Base.GESort Spec.Ucount Model.GEChoose Model.Udist Model.Utest
-  Proofs.Utest Proofs.UtestP Proofs.UtestLaws.
+  Proofs.Utest Proofs.UtestP Proofs.UtestLaws Proofs.UtestSym Proofs.UtestSymLaws Check.GEMw Check.C03 Proofs.CheckMw Proofs.CheckC03.
 Import ListNotations.
 Local Open Scope Z_scope.
 
@@ -71,6 +71,31 @@ Proof.
   exact (conj (mw_swap_less_greater cmp Hr Ha Ht He x1 x2 H1 H2 HK) (mw_swap_greater_less cmp Hr Ha Ht He x1 x2 H1 H2 HK)).
 Qed.
 Print Assumptions C03_swap_less_greater.
+(* ... preserves the specified two-sided value min(1, 2 min(Pr[U'<=U], Pr[U'>=U])) for EVERY tie vector ... *)
+Theorem C03_swap_two_sided_spec : forall {A} (cmp : A -> A -> comparison), total_preorder cmp -> eq_is_identity cmp ->
+  forall x1 x2 : list A, x1 <> [] -> x2 <> [] ->
+  let s := mw_stat cmp x1 x2 in let n1 := length x1 in let n2 := length x2 in
+  length (ms_T s) <> 1%nat ->
+  (mw_spec_p (udist_cdf n2 n1 (ms_T s)) n2 n1 (2 * Z.of_nat n1 * Z.of_nat n2 - ms_twoU s) 0 ==
+   mw_spec_p (udist_cdf n1 n2 (ms_T s)) n1 n2 (ms_twoU s) 0)%Q.
+Proof.
+  intros A cmp (Hr & Ha & Ht) He x1 x2 H1 H2 s n1 n2 HK.
+  exact (mw_swap_spec_two_sided cmp Hr Ha Ht x1 x2 H1 H2 HK He).
+Qed.
+Print Assumptions C03_swap_two_sided_spec.
+(* ... and preserves the two-sided exact p-value THE CODE computes whenever the tie vector is palindromic
+   (T = rev T, in particular without ties); for other tie vectors see finding D2 *)
+Theorem C03_swap_two_sided_palindromic : forall {A} (cmp : A -> A -> comparison), total_preorder cmp -> eq_is_identity cmp ->
+  forall x1 x2 : list A, x1 <> [] -> x2 <> [] ->
+  let s := mw_stat cmp x1 x2 in let n1 := length x1 in let n2 := length x2 in
+  length (ms_T s) <> 1%nat -> rev (ms_T s) = ms_T s ->
+  (mw_exact_p (udist_cdf n2 n1 (ms_T s)) n2 n1 (2 * Z.of_nat n1 * Z.of_nat n2 - ms_twoU s) 0 ==
+   mw_exact_p (udist_cdf n1 n2 (ms_T s)) n1 n2 (ms_twoU s) 0)%Q.
+Proof.
+  intros A cmp (Hr & Ha & Ht) He x1 x2 H1 H2 s n1 n2 HK Hp.
+  exact (mw_swap_two_sided_palin cmp Hr Ha Ht x1 x2 H1 H2 HK He Hp).
+Qed.
+Print Assumptions C03_swap_two_sided_palindromic.
 (* normal branch under the swap: same sigma^2, negated numerator with Less/Greater exchanged; hence for every
    Phi with Phi(-z) = 1 - Phi(z) the one-sided p-values are exchanged and the two-sided one is preserved *)
 Theorem C03_swap_sigma2 : forall n1 n2 T, sigma2 n2 n1 T = sigma2 n1 n2 T.
@@ -95,6 +120,20 @@ Theorem C03_exact_P_range : forall {A} (cmp : A -> A -> comparison), total_preor
   (0 <= mw_exact_p (udist_cdf (length x1) (length x2) (ms_T s)) (length x1) (length x2) (ms_twoU s) alt <= 1)%Q.
 Proof. intros A cmp (Hr & Ha & Ht). exact (mw_exact_P_range cmp Hr Ha Ht). Qed.
 Print Assumptions C03_exact_P_range.
+(* the specified p-value is a probability for all three alternatives and EVERY tie vector; the two-sided value
+   the code computes is one whenever T is palindromic (for other T it can exceed 1: finding D2) *)
+Theorem C03_spec_P_range : forall {A} (cmp : A -> A -> comparison), total_preorder cmp ->
+  forall x1 x2 : list A, x1 <> [] -> x2 <> [] -> let s := mw_stat cmp x1 x2 in length (ms_T s) <> 1%nat ->
+  forall alt, alt = -1 \/ alt = 0 \/ alt = 1 ->
+  (0 <= mw_spec_p (udist_cdf (length x1) (length x2) (ms_T s)) (length x1) (length x2) (ms_twoU s) alt <= 1)%Q.
+Proof. intros A cmp (Hr & Ha & Ht). exact (mw_spec_P_range cmp Hr Ha Ht). Qed.
+Print Assumptions C03_spec_P_range.
+Theorem C03_exact_two_sided_range : forall {A} (cmp : A -> A -> comparison), total_preorder cmp ->
+  forall x1 x2 : list A, x1 <> [] -> x2 <> [] -> let s := mw_stat cmp x1 x2 in length (ms_T s) <> 1%nat ->
+  rev (ms_T s) = ms_T s ->
+  (0 <= mw_exact_p (udist_cdf (length x1) (length x2) (ms_T s)) (length x1) (length x2) (ms_twoU s) 0 <= 1)%Q.
+Proof. intros A cmp (Hr & Ha & Ht). exact (mw_exact_two_sided_range cmp Hr Ha Ht). Qed.
+Print Assumptions C03_exact_two_sided_range.
 Theorem C03_approx_P_range : forall phi alt, (0 <= phi <= 1)%Q -> (0 <= mw_approx_p phi alt <= 1)%Q.
 Proof. exact mw_approx_P_range. Qed.
 Print Assumptions C03_approx_P_range.
@@ -118,6 +157,20 @@ Theorem C03_continuity_correction : forall n1 n2 tu,
 Proof. exact numer2_textbook. Qed.
 Print Assumptions C03_continuity_correction.
 
+(* ---- what the correspondence check establishes (Check/C03.v over Check/GEMw.v) ---- *)
+(* a family of runs accepted with code V_OK: in every run the arguments (whole backing arrays) and the limit variables
+   are intact and every call agrees with the model result on the decoded inputs (run_ok, Proofs/CheckC03.v: status,
+   N1, N2, U exactly, P within tolerance of the specified value / of the tail expression over the implementation's
+   own Phi at the model's z); the laws above are theorems about that model result *)
+Theorem C03_check_ok_sound : forall rs tag, check_runs rs 0 V_OK 0 = (V_OK, tag, None) -> Forall run_ok rs.
+Proof. intros rs tag H. exact (proj2 (check_runs_ok_sound rs 0 V_OK 0 tag H ltac:(unfold V_OK; lia))). Qed.
+Print Assumptions C03_check_ok_sound.
+(* accepted with any code (no mismatch): additionally calls showing the known finding D2, only for the two-sided
+   alternative on a non-palindromic tie vector (run_accepted) *)
+Theorem C03_check_accept_sound : forall rs code tag, check_runs rs 0 V_OK 0 = (code, tag, None) -> Forall run_accepted rs.
+Proof. intros rs code tag H. exact (check_runs_accept_sound rs 0 V_OK 0 code tag H). Qed.
+Print Assumptions C03_check_accept_sound.
+
 (* ---------- non-vacuity ---------- *)
 Example C03_Z_instance : total_preorder Z.compare /\ eq_is_identity Z.compare.
 Proof. split; [exact (conj Zcmp_refl (conj Zcmp_antisym Zcmp_trans))|]. intros a b H. now apply Z.compare_eq. Qed.
@@ -135,3 +188,16 @@ Example C03_examples :
   mw_test Z.compare udist_cdf 50 25 [4; 4] [4; 4; 4] 0 = MWErrEqual /\
   mw_test Z.compare udist_cdf 50 25 [] [4] 0 = MWErrSize.
 Proof. vm_compute. repeat split; reflexivity. Qed.
+(* palindromic tie vector [2;1;2]: the two-sided exact value is the same in both orders (and equals the specified one) *)
+Example C03_palindromic_swap :
+  rev (ms_T (mw_stat Z.compare [1; 3; 3] [1; 2])) = ms_T (mw_stat Z.compare [1; 3; 3] [1; 2]) /\
+  (match mw_test Z.compare udist_cdf 50 25 [1; 3; 3] [1; 2] 0, mw_test Z.compare udist_cdf 50 25 [1; 2] [1; 3; 3] 0 with
+   | MWExact 3 2 9 p ps, MWExact 2 3 3 p' ps' => Qred p = Qred p' /\ Qred p = Qred ps /\ Qred ps = Qred ps'
+   | _, _ => False end).
+Proof. vm_compute. repeat split; reflexivity. Qed.
+(* the hypothesis of C03_check_ok_sound is satisfiable: a family of two runs (the pair and the swapped pair) accepted *)
+Example C03_check_accepts_example :
+  check_runs [mkRun 50 25 [1; 3; 3]%Q [1; 2]%Q [mkCall (-1) 0 3 2 (XFin (9 # 2)) (XFin (9 # 10)) (-1) (XFin 0) (XFin 0)] 1;
+              mkRun 50 25 [1; 2]%Q [1; 3; 3]%Q [mkCall 1 0 2 3 (XFin (3 # 2)) (XFin (9 # 10)) 1 (XFin 0) (XFin 0)] 1] 0 V_OK 0
+  = (V_OK, 34, None).
+Proof. vm_compute. reflexivity. Qed.
